@@ -1,720 +1,8 @@
-// C01 layer 1: objects built with the library's own setters. For every (class, setter, getter) pair of harness/fields_gen.h
-// (generated from the headers) and every object state in which the field is live - a benign probe value survives
-// serialize -> parse -> getter - every boundary / hostile value of the setter's C++ parameter type must survive as well.
-// request: {"seed":n, "ns":{tag:namespace,...}}  ->  one JSON line per (field, state) + a summary line
+// C01 layer 1 driver: objects built with the library's own setters (machinery in fields_core.h, field list in fields_part_<n>.h)
+// request: {"seed":n, "ns":{tag:namespace,...}, "objs":{...}, "skip":k, "comboRounds":r}  ->  one JSON line per (field, state) / per class (combinations) + a summary line
 #pragma GCC diagnostic ignored "-Wdeprecated-declarations"
-#include "codec_registry.h"
-
-#include <QDate>
-#include <QDateTime>
-#include <QHostAddress>
-#include <QMimeDatabase>
-#include <QMimeType>
-#include <QUrl>
-#include <QUuid>
-#include <cmath>
-#include <iostream>
-#include <limits>
-#include <algorithm>
-#include <map>
-#include <memory>
-#include <random>
-#include <string>
-#include <type_traits>
-
-static QJsonObject g_ns;
-static QString g_nsOverride;   // set by an object state: the namespace the fragment's parent would declare (context-dependent serializers)
-static std::mt19937_64 g_rng;
-
-template<class X>
-struct is_optional : std::false_type { };
-template<class X>
-struct is_optional<std::optional<X>> : std::true_type { };
-
-// ---- value domains; element 0 is the benign probe
-template<class V>
-static std::vector<V> domain()
-{
-    std::vector<V> out;
-    if constexpr (is_optional<V>::value) {
-        for (auto x : domain<typename V::value_type>()) out.push_back(V(x));
-    } else if constexpr (std::is_same_v<V, bool>) {
-        out = { true, false };
-    } else if constexpr (std::is_integral_v<V>) {
-        out.push_back(V(5));
-        const long double cands[] = { 0, 1, 2, 9, 10, 99, 127, 128, 255, 256, 1000, 32767, 32768, 65535, 65536, 16777216.0L, 2147483647.0L, 2147483648.0L, 4294967295.0L, 4294967296.0L,
-                                      5368709120.0L, 9007199254740993.0L, 9223372036854775807.0L, 9223372036854775808.0L, 18446744073709551615.0L, -1, -2, -128, -129, -32768, -32769, -2147483648.0L, -2147483649.0L, -9223372036854775808.0L };
-        for (auto c : cands)
-            if (c >= (long double)std::numeric_limits<V>::min() && c <= (long double)std::numeric_limits<V>::max()) out.push_back(V(c));
-        for (int i = 0; i < 6; i++) {
-            // random value of random magnitude
-            const int bits = 1 + int(g_rng() % (sizeof(V) * 8));
-            unsigned long long r = g_rng();
-            if (bits < 64) r &= ((1ull << bits) - 1);
-            out.push_back(V(r));
-        }
-    } else if constexpr (std::is_floating_point_v<V>) {
-        out = { V(1.5), V(0.25), V(-1.5), V(123456.789), V(1e-7), V(51.123456789012), V(-179.99999999), V(1e15), V(0) };
-    } else if constexpr (std::is_same_v<V, QString>) {
-        out = { u"x1"_s, u"a<b>&\"'c"_s, u"]]>"_s, QString::fromUtf8("\xc3\xa9\xe4\xb8\xad\xf0\x9f\x98\x80"), u"a  b"_s, u"two words"_s, u"&amp;&lt;"_s, u"a\nb"_s, u"a\tb"_s, QString(300, u'q') };
-    } else if constexpr (std::is_same_v<V, QByteArray>) {
-        QByteArray all;
-        for (int i = 0; i < 256; i++) all.append(char(i));
-        out = { QByteArray("x1"), QByteArray("plain-ascii_value"), QByteArray("YWJj"), QByteArray("a+/=b") };
-        (void)all;
-    } else if constexpr (std::is_same_v<V, QDateTime>) {
-        out = { QDateTime(QDate(2020, 1, 2), QTime(3, 4, 5), Qt::UTC), QDateTime(QDate(2020, 1, 2), QTime(3, 4, 5, 123), Qt::UTC), QDateTime(QDate(1970, 1, 1), QTime(0, 0, 0), Qt::UTC),
-                QDateTime(QDate(2038, 1, 19), QTime(3, 14, 8), Qt::UTC), QDateTime(QDate(2099, 12, 31), QTime(23, 59, 59), Qt::UTC), QDateTime(QDate(2021, 6, 7), QTime(8, 9, 10), Qt::OffsetFromUTC, 19800),
-                QDateTime(QDate(1999, 2, 28), QTime(22, 0, 1), Qt::OffsetFromUTC, -12600) };
-    } else if constexpr (std::is_same_v<V, QDate>) {
-        out = { QDate(2000, 1, 2), QDate(1900, 12, 31), QDate(2024, 2, 29), QDate(1970, 1, 1) };
-    } else if constexpr (std::is_same_v<V, QUrl>) {
-        out = { QUrl(u"https://example.org/x1"_s), QUrl(u"https://example.org/a%20b?x=1&y=%3C2%3E#frag"_s), QUrl(u"xmpp:user@example.org?join"_s), QUrl(QString::fromUtf8("https://example.org/\xc3\xbc?q=a&b=c")),
-                QUrl(u"https://user:pw@example.org:8443/p/a/t/h;x=1"_s) };
-    } else if constexpr (std::is_same_v<V, QMimeType>) {
-        QMimeDatabase db;
-        for (auto n : { "text/plain", "image/png", "application/octet-stream", "audio/ogg", "application/x-tar", "text/x-c++src", "application/vnd.oasis.opendocument.text" })
-            if (auto t = db.mimeTypeForName(QString::fromLatin1(n)); t.isValid()) out.push_back(t);
-    } else if constexpr (std::is_same_v<V, QHostAddress>) {
-        out = { QHostAddress(u"192.0.2.1"_s), QHostAddress(u"255.255.255.255"_s), QHostAddress(u"::1"_s), QHostAddress(u"2001:db8::ff00:42:8329"_s), QHostAddress(u"10.0.0.1"_s), QHostAddress(u"fe80::1"_s) };
-    } else if constexpr (std::is_same_v<V, QMap<QString, QString>>) {
-        out = { V { { u"x1"_s, u"v1"_s } }, V { { u"a"_s, u"1"_s }, { u"b"_s, u"2"_s } }, V { { u"key"_s, u"a<b>&\"'c"_s } }, V { { u"k<&>"_s, QString::fromUtf8("\xc3\xa9\xe4\xb8\xad") } }, V { { u"z"_s, u"26"_s }, { u"a"_s, u"1"_s }, { u"m"_s, u"13"_s } } };
-    } else if constexpr (std::is_same_v<V, QList<int>>) {
-        out = { V { 110 }, V { 100, 201 }, V { 201, 100 }, V { 110, 210, 307, 332 }, V { 999 }, V { 100 } };
-    } else if constexpr (std::is_same_v<V, QList<QByteArray>>) {
-        QByteArray all;
-        for (int i = 0; i < 256; i++) all.append(char(i));
-        out = { V { QByteArray("x1") }, V { QByteArray("key-a"), QByteArray("key-b") }, V { all }, V { QByteArray(1, '\0'), QByteArray("\xff\xfe", 2) }, V { QByteArray(32, 'k'), QByteArray(33, 'l'), QByteArray(31, 'm') } };
-    } else if constexpr (std::is_same_v<V, QUuid>) {
-        out = { QUuid(u"{d4565ee7-bbb3-4cbe-8a45-1f2c7c9e0a11}"_s), QUuid(u"{00000000-0000-4000-8000-000000000001}"_s), QUuid(u"{ffffffff-ffff-4fff-bfff-ffffffffffff}"_s) };
-    } else if constexpr (std::is_same_v<V, QStringList> || std::is_same_v<V, QVector<QString>> || std::is_same_v<V, QList<QString>> || std::is_same_v<V, std::vector<QString>>) {
-        out = { V { u"x1"_s }, V { u"a"_s, u"b"_s, u"c"_s }, V { u"b"_s, u"a"_s }, V { u"a<b>&\"'c"_s, QString::fromUtf8("\xc3\xa9\xe4\xb8\xad") }, V { u"one two"_s, u"three"_s } };
-    }
-    return out;
-}
-
-template<class V>
-static QString show(const V &v)
-{
-    if constexpr (is_optional<V>::value) {
-        return v ? show(*v) : u"(nullopt)"_s;
-    } else if constexpr (std::is_same_v<V, bool>) {
-        return v ? u"true"_s : u"false"_s;
-    } else if constexpr (std::is_integral_v<V>) {
-        if constexpr (std::is_signed_v<V>) return QString::number(qlonglong(v));
-        else return QString::number(qulonglong(v));
-    } else if constexpr (std::is_enum_v<V>) {
-        return u"enum:"_s + QString::number(qlonglong(v));
-    } else if constexpr (std::is_floating_point_v<V>) {
-        return QString::number(double(v), 'g', 17);
-    } else if constexpr (std::is_same_v<V, QString>) {
-        return v;
-    } else if constexpr (std::is_same_v<V, QByteArray>) {
-        return QString::fromLatin1(v.toHex());
-    } else if constexpr (std::is_same_v<V, QDateTime>) {
-        return v.isValid() ? v.toString(Qt::ISODateWithMs) : u"(invalid)"_s;
-    } else if constexpr (std::is_same_v<V, QDate>) {
-        return v.toString(Qt::ISODate);
-    } else if constexpr (std::is_same_v<V, QUrl>) {
-        return QString::fromLatin1(v.toEncoded());
-    } else if constexpr (std::is_same_v<V, QMimeType>) {
-        return v.name();
-    } else if constexpr (std::is_same_v<V, QHostAddress>) {
-        return v.toString();
-    } else if constexpr (std::is_same_v<V, QMap<QString, QString>>) {
-        QStringList l;
-        for (auto it = v.begin(); it != v.end(); ++it) l << it.key() + QLatin1Char('=') + it.value();
-        return l.join(u" | ");
-    } else if constexpr (std::is_same_v<V, QList<int>>) {
-        QStringList l;
-        for (int i : v) l << QString::number(i);
-        return l.join(u",");
-    } else if constexpr (std::is_same_v<V, QList<QByteArray>>) {
-        QStringList l;
-        for (auto &b : v) l << QString::fromLatin1(b.toHex());
-        return l.join(u",");
-    } else if constexpr (std::is_same_v<V, QUuid>) {
-        return v.toString();
-    } else if constexpr (std::is_same_v<V, QStringList> || std::is_same_v<V, QVector<QString>> || std::is_same_v<V, QList<QString>> || std::is_same_v<V, std::vector<QString>>) {
-        return QStringList(v.begin(), v.end()).join(u" | ");
-    } else {
-        return u"?"_s;
-    }
-}
-
-template<class V, class G>
-static bool same(const V &want, const G &got)
-{
-    if constexpr (is_optional<V>::value && is_optional<G>::value) {
-        if (want.has_value() != got.has_value()) return false;
-        return !want || same(*want, *got);
-    } else if constexpr (is_optional<G>::value) {
-        return got.has_value() && same(want, *got);
-    } else if constexpr (std::is_same_v<V, QDateTime>) {
-        return got.isValid() && want.toMSecsSinceEpoch() == got.toMSecsSinceEpoch();   // the instant; the zone of representation is not judged
-    } else if constexpr (std::is_floating_point_v<V>) {
-        return double(want) == double(got);
-    } else if constexpr (std::is_same_v<V, QStringList> || std::is_same_v<V, QVector<QString>> || std::is_same_v<V, QList<QString>> || std::is_same_v<V, std::vector<QString>>) {
-        // list-valued fields are compared as multisets ("up to sibling order")
-        QStringList a(want.begin(), want.end()), b(got.begin(), got.end());
-        a.sort();
-        b.sort();
-        return a == b;
-    } else if constexpr (std::is_same_v<V, QList<int>> || std::is_same_v<V, QList<QByteArray>>) {
-        V a = want, b = got;
-        std::sort(a.begin(), a.end());
-        std::sort(b.begin(), b.end());
-        return a == b;
-    } else if constexpr (std::is_same_v<V, QMimeType>) {
-        return want.name() == got.name();
-    } else if constexpr (std::is_same_v<V, bool>) {
-        return want == bool(got);
-    } else if constexpr (std::is_integral_v<V> && std::is_integral_v<G>) {
-        return std::cmp_equal(want, got);
-    } else {
-        return want == V(got);
-    }
-}
-
-// fields whose documented domain is narrower than their C++ type: values outside are not judged
-static const std::map<std::string, std::pair<long double, long double>> RANGES = {
-    { "QXmppJinglePayloadType.setChannels", { 1, 255 } },            // "1 for mono, 2 for stereo"; 0 channels does not exist, absent means 1
-    { "QXmppResultSetQuery.setMax", { 0, 2147483647.0L } },          // -1 is the documented 'not set'
-    { "QXmppResultSetQuery.setIndex", { 0, 2147483647.0L } },
-    { "QXmppResultSetReply.setCount", { 0, 2147483647.0L } },
-    { "QXmppResultSetReply.setIndex", { 0, 2147483647.0L } },
-    { "QXmppTuneItem.setRating", { 1, 10 } },                        // XEP-0118: 1..10
-    { "QXmppStanza::Error.setCode", { 0, 2147483647.0L } },          // legacy numeric error codes are positive; 0 is the documented 'none'
-};
-static const std::map<std::string, std::pair<long long, int>> MULTIPLE_OF = {
-    { "QXmppEntityTimeIq.setTzo", { 60, 0 } },   // seconds, written as +hh:mm, |offset| < 14 h
-};
-// fields exempt by the statement itself
-static const std::map<std::string, const char *> EXCLUDED = {
-    { "QXmppMessage.setXhtml", "XHTML-IM body is written raw (the documented exception of the statement)" },
-    { "QXmppMessage.setCarbonForwarded", "local flag, not part of the serialized form" },
-};
-// values that are outside the field's domain in some object states only (a companion field decides what they mean)
-static bool skipValueInState(const std::string &key, const QString &state, const QString &shown)
-{
-    // XEP-0153: "valid photo" means "the photo with this hash"; without a hash the element is <photo/>, which *is* "no photo"
-    if (key == "QXmppPresence.setVCardUpdateType" && shown == u"enum:2" && state != u"photo") return true;
-    // XEP-0363: content-type is optional and the library treats QMimeType's default (application/octet-stream) as "not given"
-    if (key == "QXmppHttpUploadRequestIq.setContentType" && shown == u"application/octet-stream") return true;
-    // Type::None is the "no element" marker of these two classes (an element without a name cannot be written; DESIGN 5.3)
-    if ((key == "QXmppCallInviteElement.setType" || key == "QXmppJingleMessageInitiationElement.setType") && shown == u"enum:0") return true;
-    return false;
-}
-// combination pass: one field's value makes another meaningless (protocol-level exclusivity); gate value "*" = any value of the gate field
-struct Gate {
-    const char *cls, *lost, *gate, *value, *why;
-};
-static const Gate GATES[] = {
-    { "QXmppMessage", "setSpoilerHint", "setIsSpoiler", "false", "a hint belongs to a spoiler (XEP-0382)" },
-    { "QXmppMessage", "setReceiptRequested", "setReceiptId", "*", "a message is a receipt or asks for one (XEP-0184)" },
-    { "QXmppPresence", "setMucPassword", "setMucSupported", "false", "the password is a child of the MUC join element" },
-    { "QXmppRpcResponseIq", "setFaultString", "setFaultCode", "0", "a fault exists iff its code is non-zero" },
-    { "QXmppStanza::Error", "setMaxFileSize", "setFileTooLarge", "false", "the size limit is a child of <file-too-large/> (XEP-0363)" },
-    { "QXmppStanza::Error", "setRetryDate", "setFileTooLarge", "true", "an upload error is either 'file too large' or 'retry later' (XEP-0363)" },
-    { "QXmppStanza::Error", "setRetryDate", "setMaxFileSize", "*", "setting a size limit makes the error a 'file too large' error" },
-    { "QXmppRosterIq::Item", "setMixParticipantId", "setIsMixChannel", "false", "participant id is an attribute of the MIX channel marker" },
-    { "QXmppJingleIq::Content", "setTransportFingerprintHash", "setTransportFingerprint", "*", "the DTLS fingerprint element needs both value and hash" },
-    { "QXmppJingleIq::Content", "setTransportFingerprintSetup", "setTransportFingerprint", "*", "the DTLS fingerprint element needs both value and hash" },
-    { "QXmppJingleIq::Content", "setTransportFingerprint", "setTransportFingerprintHash", "*", "the DTLS fingerprint element needs both value and hash" },
-    { "QXmppJingleIq::Content", "setTransportFingerprintSetup", "setTransportFingerprintHash", "*", "the DTLS fingerprint element needs both value and hash" },
-};
-static bool gated(const char *cls, const QString &lost, const QJsonArray &names, const QJsonArray &values)
-{
-    for (const auto &g : GATES) {
-        if (qstrcmp(g.cls, cls) != 0 || lost != QLatin1String(g.lost)) continue;
-        for (int i = 0; i < names.size(); i++)
-            if (names[i].toString() == QLatin1String(g.gate) && (g.value[0] == '*' || values[i].toString() == QLatin1String(g.value))) return true;
-    }
-    return false;
-}
-template<class V>
-static bool inRange(const V &v, long double lo, long double hi)
-{
-    if constexpr (is_optional<V>::value) return !v || inRange(*v, lo, hi);
-    else if constexpr (std::is_arithmetic_v<V>) return (long double)v >= lo && (long double)v <= hi;
-    else return true;
-}
-
-// ---- object states
-#include "fields_states.h"
-template<class T>
-static std::vector<std::pair<QString, std::function<void(T &)>>> states()
-{
-    std::vector<std::pair<QString, std::function<void(T &)>>> out;
-    if constexpr (std::is_base_of_v<QXmppIq, T>) {
-        out.push_back({ u"iq-get"_s, [](T &t) { t.setType(QXmppIq::Get); } });
-        out.push_back({ u"iq-set"_s, [](T &t) { t.setType(QXmppIq::Set); } });
-        out.push_back({ u"iq-result"_s, [](T &t) { t.setType(QXmppIq::Result); } });
-        out.push_back({ u"iq-error"_s, [](T &t) { t.setType(QXmppIq::Error); } });
-    } else if constexpr (std::is_same_v<T, QXmppMessage>) {
-        out.push_back({ u"chat"_s, [](T &t) { t.setType(QXmppMessage::Chat); } });
-        out.push_back({ u"groupchat"_s, [](T &t) { t.setType(QXmppMessage::GroupChat); } });
-        out.push_back({ u"error"_s, [](T &t) { t.setType(QXmppMessage::Error); } });
-    } else if constexpr (std::is_same_v<T, QXmppPresence>) {
-        out.push_back({ u"available"_s, [](T &) {} });
-        out.push_back({ u"unavailable"_s, [](T &t) { t.setType(QXmppPresence::Unavailable); } });
-        out.push_back({ u"error"_s, [](T &t) { t.setType(QXmppPresence::Error); } });
-    } else {
-        out.push_back({ u"default"_s, [](T &) {} });
-    }
-    Extra<T>::add(out);
-    return out;
-}
-
-static bool parseDocNs(const QByteArray &x, QDomDocument &doc)
-{
-    return doc.setContent(x, true);
-}
-
-// nested serializers rely on the default namespace of their parent: give a namespace-less root the namespace its tag has in the corpus
-static bool toDom(QByteArray x, QDomDocument &doc, bool &wrapped)
-{
-    wrapped = false;
-    if (!parseDocNs(x, doc)) {
-        wrapped = true;
-        return parseDocNs("<wrapped-fragment>" + x + "</wrapped-fragment>", doc);
-    }
-    auto root = doc.documentElement();
-    if (root.namespaceURI().isEmpty() && !root.tagName().contains(u':') && (g_ns.contains(root.tagName()) || !g_nsOverride.isEmpty())) {
-        QDomDocument d2;
-        d2.setContent(x, false);
-        d2.documentElement().setAttribute(u"xmlns"_s, g_nsOverride.isEmpty() ? g_ns[root.tagName()].toString() : g_nsOverride);
-        return parseDocNs(d2.toByteArray(-1), doc);
-    }
-    return true;
-}
-
-// canonical form of an element: tag, namespace, sorted attributes, text, children as a sorted multiset ("up to sibling order")
-static QString canonEl(const QDomElement &el)
-{
-    QString out = u'{' + el.namespaceURI() + u'}' + (el.localName().isEmpty() ? el.tagName() : el.localName());
-    QStringList attrs;
-    const auto m = el.attributes();
-    for (int i = 0; i < m.count(); i++) {
-        const auto a = m.item(i).toAttr();
-        if (a.name() == u"xmlns" || a.name().startsWith(u"xmlns:")) continue;
-        attrs << a.name() + u'=' + a.value();
-    }
-    attrs.sort();
-    out += u'[' + attrs.join(u'|') + u']';
-    QStringList kids;
-    QString text;
-    for (auto n = el.firstChild(); !n.isNull(); n = n.nextSibling()) {
-        if (n.isElement()) kids << canonEl(n.toElement());
-        else if (n.isText()) text += n.nodeValue();
-    }
-    kids.sort();
-    return out + u'(' + (kids.isEmpty() ? text : text.trimmed()) + kids.join(u',') + u')';
-}
-
-static int g_fields = 0, g_live = 0, g_values = 0, g_fail = 0, g_skip = 0;
-
-static std::vector<QByteArray> binaryDomain()
-{
-    QByteArray all;
-    for (int i = 0; i < 256; i++) all.append(char(i));
-    std::vector<QByteArray> out { QByteArray("x1"), all, QByteArray(1, '\0'), QByteArray("\xff\xfe\x00\x01", 4), QByteArray(1000, 'z') };
-    for (int n : { 1, 2, 3, 4, 5, 31, 32, 33 }) {
-        QByteArray b;
-        for (int i = 0; i < n; i++) b.append(char(g_rng()));
-        out.push_back(b);
-    }
-    return out;
-}
-
-// ---- per-class registry of the fields seen, for the combination pass ("every assignment of values to its fields", "all combinations
-// of present/absent optional fields"): type-erased accessors over the domain values that survive alone
-template<class T>
-struct FieldOps {
-    std::string name;
-    std::function<void(T &, size_t)> set;
-    std::function<bool(const T &, size_t)> holds;
-    std::function<QString(size_t)> shown;
-    std::function<QString(const T &)> got;
-    std::map<QString, std::vector<size_t>> okValues;   // state -> indices of the values that round-trip when set alone
-    bool discriminator = false;   // enum-valued: type / mode / action fields decide which other fields exist at all; they are varied through the object states instead
-};
-template<class T>
-static std::vector<FieldOps<T>> &fieldsOf()
-{
-    static std::vector<FieldOps<T>> v;
-    return v;
-}
-struct ClassHooks {
-    std::function<void()> clear, run;
-};
-static std::vector<ClassHooks> g_classes;
-static int g_combos = 0, g_comboFails = 0, g_comboRoundsMax = 60;
-template<class T>
-static void runCombos(const char *cls);
-template<class T>
-static void registerClass(const char *cls)
-{
-    static bool done = false;
-    if (done) return;
-    done = true;
-    g_classes.push_back({ [] { fieldsOf<T>().clear(); }, [cls] { runCombos<T>(cls); } });
-}
-
-template<class T, class V, class G, class Set, class Get>
-static void runAccess(const char *cls, const char *setter, Set set, Get get, bool binary, std::vector<V> explicitDom = {});
-
-template<class X>
-struct strip_optional { using type = X; };
-template<class X>
-struct strip_optional<std::optional<X>> { using type = X; };
-
-// enum-valued setters: the domain is every enumerator of the parameter's type (generated from the headers)
-template<class T, class C1, class A, class C2, class R>
-static void runEnumField(const char *cls, const char *setter, void (C1::*set)(A), R (C2::*get)() const, std::vector<typename strip_optional<std::decay_t<A>>::type> values)
-{
-    using V = std::decay_t<A>;
-    using G = std::decay_t<R>;
-    std::vector<V> dom;
-    for (auto v : values) dom.push_back(V(v));
-    runAccess<T, V, G>(cls, setter, [set](T &o, const V &v) { (o.*set)(v); }, [get](const T &o) -> G { return (o.*get)(); }, false, dom);
-}
-
-template<class T, class C1, class A, class C2, class R>
-static void runField(const char *cls, const char *setter, void (C1::*set)(A), R (C2::*get)() const)
-{
-    using V = std::decay_t<A>;
-    using G = std::decay_t<R>;
-    runAccess<T, V, G>(cls, setter, [set](T &o, const V &v) { (o.*set)(v); }, [get](const T &o) -> G { return (o.*get)(); }, false);
-}
-
-// aggregates with public members (the private nonza structs)
-template<class T, class V>
-static void runMember(const char *cls, const char *name, V T::*mem, bool binary = false)
-{
-    runAccess<T, V, V>(cls, name, [mem](T &o, const V &v) { o.*mem = v; }, [mem](const T &o) -> V { return o.*mem; }, binary);
-}
-
-template<class T, class V, class G, class Set, class Get>
-static void runAccess(const char *cls, const char *setter, Set set, Get get, bool binary, std::vector<V> explicitDom)
-{
-    g_fields++;
-    if (g_fields <= g_skip) return;
-    printf("FIELD %d %s %s\n", g_fields, cls, setter);
-    fflush(stdout);
-    auto dom = explicitDom.empty() ? domain<V>() : explicitDom;
-    if constexpr (std::is_same_v<V, QByteArray>) {
-        if (binary) dom = binaryDomain();
-    }
-    const std::string key = std::string(cls) + "." + setter;
-    if constexpr (std::is_same_v<V, QMap<QString, QString>>) {
-        // documented domain: only these three header names are kept by the setter (XEP-0363 security considerations)
-        if (key == "QXmppHttpUploadSlotIq.setPutHeaders")
-            dom = { V { { u"Authorization"_s, u"Basic x1"_s } }, V { { u"Cookie"_s, u"a=b; c=\"<&>\""_s }, { u"Expires"_s, u"Wed, 21 Oct 2099 07:28:00 GMT"_s } }, V { { u"Authorization"_s, QString::fromUtf8("Bearer \xc3\xa9\xe4\xb8\xad") }, { u"Cookie"_s, u"x"_s }, { u"Expires"_s, u"0"_s } } };
-    }
-    if (dom.empty()) {
-        emitJson(QJsonObject { { "cls", QString::fromLatin1(cls) }, { "field", QString::fromLatin1(setter) }, { "excluded", u"value type not supported by the harness"_s } });
-        return;
-    }
-    if (EXCLUDED.count(key)) {
-        emitJson(QJsonObject { { "cls", QString::fromLatin1(cls) }, { "field", QString::fromLatin1(setter) }, { "excluded", QString::fromLatin1(EXCLUDED.at(key)) } });
-        return;
-    }
-    if (auto it = RANGES.find(key); it != RANGES.end()) {
-        // documented value range of the field (see table)
-        std::vector<V> kept;
-        for (size_t i = 0; i < dom.size(); i++)
-            if (V v = dom[i]; inRange(v, it->second.first, it->second.second)) kept.push_back(v);
-        dom = kept;
-    }
-    if constexpr (std::is_integral_v<V> && !std::is_same_v<V, bool>) {
-        // fields whose lexical form has a coarser unit than the C++ type (XEP-0082 offsets are written as +hh:mm)
-        if (auto it = MULTIPLE_OF.find(key); it != MULTIPLE_OF.end()) {
-            std::vector<V> kept;
-            for (auto v : dom) {
-                const long long q = (long long)(v) % (it->second.first * 24 * 14) / it->second.first * it->second.first;
-                kept.push_back(V(q ? q : it->second.first));
-            }
-            dom = kept;
-        }
-    }
-    registerClass<T>(cls);
-    auto domShared = std::make_shared<std::vector<V>>(dom);
-    std::vector<size_t> perm(dom.size());
-    for (size_t i = 0; i < perm.size(); i++) perm[i] = i;
-    FieldOps<T> ops;
-    ops.name = setter;
-    ops.discriminator = std::is_enum_v<typename strip_optional<V>::type>;
-    ops.set = [set, domShared](T &o, size_t i) { set(o, V((*domShared)[i])); };
-    ops.holds = [get, domShared](const T &o, size_t i) { return same(V((*domShared)[i]), G(get(o))); };
-    ops.shown = [domShared](size_t i) { return show(V((*domShared)[i])); };
-    ops.got = [get](const T &o) { return show(G(get(o))); };
-    for (auto &[stateName, prep] : states<T>()) {
-        QJsonObject rec { { "cls", QString::fromLatin1(cls) }, { "field", QString::fromLatin1(setter) }, { "state", stateName } };
-        QJsonArray fails;
-        auto attempt = [&](const V &v, QString &got, QByteArray &xml) -> bool {
-            T o {};
-            g_nsOverride.clear();
-            prep(o);
-            set(o, v);
-            // a value the setter itself refuses or normalises is outside the field's domain
-            if (!same(v, G(get(o)))) {
-                got = u"(setter-domain)"_s;
-                return true;
-            }
-            xml = serializeAny(o);
-            QDomDocument doc;
-            bool wrapped;
-            if (!toDom(xml, doc, wrapped)) {
-                got = u"(output not well-formed)"_s;
-                return false;
-            }
-            auto o2 = parseAny<T>(doc.documentElement());
-            if (!o2) {
-                got = u"(own output refused)"_s;
-                return false;
-            }
-            const G g = get(*o2);
-            got = show(g);
-            if (!same(v, g)) return false;
-            // "... and serializes to the same XML"
-            const QByteArray xml2 = serializeAny(*o2);
-            if (xml2 != xml) {
-                QDomDocument doc2;
-                bool wrapped2;
-                if (!toDom(xml2, doc2, wrapped2) || canonEl(doc.documentElement()) != canonEl(doc2.documentElement())) {
-                    got = u"(serializes differently after the round trip) "_s + QString::fromUtf8(xml2.left(700));
-                    return false;
-                }
-            }
-            return true;
-        };
-        QString got;
-        QByteArray xml;
-        // the probe is the first benign value that differs from what the prepared object reports anyway
-        {
-            T o {};
-            g_nsOverride.clear();
-            prep(o);
-            const G def = get(o);
-            for (size_t i = 0; i < dom.size(); i++) {
-                if (V v = dom[i]; !same(v, def) && !skipValueInState(key, stateName, show(v))) {
-                    if (i) {
-                        V first = dom[0];
-                        dom[0] = v;
-                        dom[i] = first;
-                        std::swap(perm[0], perm[i]);   // the registry keeps the original order
-                    }
-                    break;
-                }
-            }
-        }
-        const bool live = attempt(V(dom[0]), got, xml) && got != u"(setter-domain)";
-        rec["live"] = live;
-        if (!live) {
-            rec["probe_xml"] = QString::fromUtf8(xml.left(600));
-            rec["probe_got"] = got;
-            emitJson(rec);
-            continue;
-        }
-        g_live++;
-        ops.okValues[stateName].push_back(perm[0]);
-        int tried = 0;
-        for (size_t i = 1; i < dom.size(); i++) {
-            if (skipValueInState(key, stateName, show(V(dom[i])))) continue;
-            tried++;
-            g_values++;
-            if (!attempt(V(dom[i]), got, xml)) {
-                g_fail++;
-                fails.append(QJsonObject { { "value", show(V(dom[i])) }, { "got", got }, { "xml", QString::fromUtf8(xml.left(1200)) } });
-            } else if (got != u"(setter-domain)") {
-                ops.okValues[stateName].push_back(perm[i]);
-            }
-        }
-        rec["tried"] = tried;
-        rec["fails"] = fails;
-        emitJson(rec);
-    }
-    if (!ops.okValues.empty()) fieldsOf<T>().push_back(std::move(ops));
-}
-
-// combination pass: several fields of one object set at once, each to a value that survives alone in that state
-template<class T>
-static void runCombos(const char *cls)
-{
-    auto &all = fieldsOf<T>();
-    if (all.size() < 2) return;
-    int tried = 0, gatedCount = 0;
-    QJsonArray fails;
-    for (auto &[stateName, prep] : states<T>()) {
-        std::vector<FieldOps<T> *> live;
-        for (auto &f : all)
-            if (f.okValues.count(stateName) && !f.discriminator) live.push_back(&f);
-        if (live.size() < 2) continue;
-        const int rounds = int(qMin<size_t>(size_t(g_comboRoundsMax), 6 + live.size() * 3));
-        for (int k = 0; k < rounds; k++) {
-            // subset: pairs, triples, half, all
-            size_t want = k % 4 == 0 ? live.size() : k % 4 == 1 ? 2 : k % 4 == 2 ? 3 : qMax<size_t>(2, live.size() / 2);
-            want = qMin(want, live.size());
-            std::vector<FieldOps<T> *> pick = live;
-            std::shuffle(pick.begin(), pick.end(), g_rng);
-            pick.resize(want);
-            std::vector<size_t> val;
-            for (auto *f : pick) {
-                auto &ok = f->okValues[stateName];
-                val.push_back(ok[g_rng() % ok.size()]);
-            }
-            T o {};
-            g_nsOverride.clear();
-            prep(o);
-            for (size_t i = 0; i < pick.size(); i++) pick[i]->set(o, val[i]);
-            // setters that interact (one resets or normalises another): such an assignment is not an object the API can build
-            bool buildable = true;
-            for (size_t i = 0; i < pick.size(); i++) buildable = buildable && pick[i]->holds(o, val[i]);
-            if (!buildable) continue;
-            tried++;
-            g_combos++;
-            const QByteArray xml = serializeAny(o);
-            QDomDocument doc;
-            bool wrapped;
-            QString problem, lost;
-            if (!toDom(xml, doc, wrapped)) problem = u"(output not well-formed)"_s;
-            else if (auto o2 = parseAny<T>(doc.documentElement()); !o2) problem = u"(own output refused)"_s;
-            else {
-                for (size_t i = 0; i < pick.size() && problem.isEmpty(); i++)
-                    if (!pick[i]->holds(*o2, val[i])) {
-                        lost = QString::fromStdString(pick[i]->name);
-                        problem = u"value-lost: set "_s + pick[i]->shown(val[i]) + u", after the round trip "_s + pick[i]->got(*o2);
-                    }
-                if (problem.isEmpty()) {
-                    const QByteArray xml2 = serializeAny(*o2);
-                    QDomDocument doc2;
-                    bool w2;
-                    if (xml2 != xml && (!toDom(xml2, doc2, w2) || canonEl(doc.documentElement()) != canonEl(doc2.documentElement())))
-                        problem = u"(serializes differently after the round trip) "_s + QString::fromUtf8(xml2.left(700));
-                }
-            }
-            if (!problem.isEmpty()) {
-                QJsonArray names, values;
-                for (size_t i = 0; i < pick.size(); i++) {
-                    names.append(QString::fromStdString(pick[i]->name));
-                    values.append(pick[i]->shown(val[i]).left(80));
-                }
-                if (!lost.isEmpty() && gated(cls, lost, names, values)) {
-                    gatedCount++;
-                    continue;
-                }
-                g_comboFails++;
-                if (fails.size() < 12) fails.append(QJsonObject { { "state", stateName }, { "fields", names }, { "values", values }, { "lost", lost }, { "problem", problem.left(900) }, { "xml", QString::fromUtf8(xml.left(1500)) } });
-            }
-        }
-    }
-    emitJson(QJsonObject { { "cls", QString::fromLatin1(cls) }, { "combination", true }, { "fields", int(all.size()) }, { "tried", tried }, { "not_judged_gated", gatedCount }, { "fails", fails } });
-}
-
-// object-valued fields (lists / optionals of codec classes): values are parsed from corpus elements handed in by the driver ("objs"),
-// equality is equality of the value objects' own serialization
-static QJsonObject g_objs;
-template<class T, class X, class Set, class Get>
-static void runObject(const char *cls, const char *setter, const char *xname, const char *objKey, Set set, Get get, int maxCount = 2)
-{
-    static const auto reg = buildRegistry();
-    const Entry *xcheck = nullptr;
-    for (const auto &e : reg)
-        if (e.hasCheck && e.name == QLatin1String(xname)) xcheck = &e;
-    g_fields++;
-    if (g_fields <= g_skip) return;
-    printf("FIELD %d %s %s\n", g_fields, cls, setter);
-    fflush(stdout);
-    std::vector<X> values;
-    for (auto v : g_objs[QString::fromLatin1(objKey)].toArray()) {
-        QDomDocument d;
-        if (!d.setContent(v.toString().toUtf8(), true)) continue;
-        if (xcheck && !xcheck->check(d.documentElement())) continue;   // the value type's own check refuses this corpus element (a negative test document)
-        std::optional<X> x;
-        if constexpr (std::is_same_v<X, QXmppElement>) x = QXmppElement(d.documentElement());
-        else x = parseAny<X>(d.documentElement());
-        if (x) {
-            // only values that survive their own round trip are fair probes of the container
-            const QByteArray a = serializeAny(*x);
-            if (!a.trimmed().isEmpty()) values.push_back(*x);
-        }
-    }
-    for (auto &[stateName, prep] : states<T>()) {
-        QJsonObject rec { { "cls", QString::fromLatin1(cls) }, { "field", QString::fromLatin1(setter) }, { "state", stateName }, { "object_valued", true } };
-        QJsonArray fails;
-        int tried = 0;
-        bool live = false;
-        for (size_t i = 0; i < values.size(); i++) {
-            for (int count = 1; count <= (i == 0 ? maxCount : 1); count++) {   // one value; for the first also two of them
-                std::vector<X> in(size_t(count), values[i]);
-                if (count == 2 && values.size() > 1) in[1] = values[1];
-                T o {};
-                g_nsOverride.clear();
-                prep(o);
-                set(o, in);
-                const QByteArray xml = serializeAny(o);
-                QDomDocument doc;
-                bool wrapped;
-                QString got;
-                bool ok = false;
-                if (!toDom(xml, doc, wrapped)) got = u"(output not well-formed)"_s;
-                else if (auto o2 = parseAny<T>(doc.documentElement()); !o2) got = u"(own output refused)"_s;
-                else {
-                    const std::vector<X> out = get(*o2);
-                    QStringList a, b;
-                    for (auto &x : in) a << QString::fromUtf8(serializeAny(x));
-                    for (auto &x : out) b << QString::fromUtf8(serializeAny(x));
-                    a.sort();
-                    b.sort();
-                    got = b.join(u" ; ");
-                    ok = a == b;
-                    if (ok) {
-                        const QByteArray xml2 = serializeAny(*o2);
-                        QDomDocument doc2;
-                        bool w2;
-                        if (xml2 != xml && (!toDom(xml2, doc2, w2) || canonEl(doc.documentElement()) != canonEl(doc2.documentElement()))) {
-                            ok = false;
-                            got = u"(serializes differently after the round trip) "_s + QString::fromUtf8(xml2.left(900));
-                        }
-                    }
-                }
-                if (i == 0 && count == 1) {
-                    live = ok || got.startsWith(u"(serializes differently");
-                    if (!live) {
-                        rec["probe_xml"] = QString::fromUtf8(xml.left(600));
-                        rec["probe_got"] = got.left(300);
-                        break;
-                    }
-                }
-                tried++;
-                g_values++;
-                if (!ok) {
-                    g_fail++;
-                    fails.append(QJsonObject { { "value", QString::fromUtf8(serializeAny(values[i])).left(400) + (count == 2 ? u" (x2)"_s : QString()) }, { "got", got.left(900) }, { "xml", QString::fromUtf8(xml.left(1200)) } });
-                }
-            }
-            if (!live) break;
-        }
-        rec["live"] = live;
-        if (live) {
-            g_live++;
-            rec["tried"] = tried;
-            rec["fails"] = fails;
-        }
-        emitJson(rec);
-    }
-}
-template<class X, class L>
-static std::vector<X> toVec(const L &l) { return std::vector<X>(l.begin(), l.end()); }
-// list-valued, optional-valued and plain object setters
-#define OL(T, S, G, X, L, KEY) runObject<T, X>(#T, #S, #X, KEY, [](T &o, const std::vector<X> &v) { o.S(L(v.begin(), v.end())); }, [](const T &o) { return toVec<X>(o.G()); })
-#define OO(T, S, G, X, KEY) runObject<T, X>(#T, #S, #X, KEY, [](T &o, const std::vector<X> &v) { o.S(v.front()); }, [](const T &o) { std::vector<X> r; if (auto x = o.G()) r.push_back(*x); return r; }, 1)
-#define OP(T, S, G, X, KEY) runObject<T, X>(#T, #S, #X, KEY, [](T &o, const std::vector<X> &v) { o.S(v.front()); }, [](const T &o) { return std::vector<X> { o.G() }; }, 1)
-#define F(T, S, G) runField<T>(#T, #S, &T::S, &T::G)
-#define FE(T, S, G, ...) runEnumField<T>(#T, #S, &T::S, &T::G, { __VA_ARGS__ })
-#define M(T, MEM) runMember<T>(#T, #MEM, &T::MEM)
-#define MB(T, MEM) runMember<T>(#T, #MEM, &T::MEM, true)
+#include "fields_core.h"
+#include "fields_parts.h"   // NPARTS + declarations, generated
 
 int main()
 {
@@ -729,18 +17,9 @@ int main()
         g_rng.seed(quint64(in["seed"].toDouble(1)));
         g_fields = g_live = g_values = g_fail = 0;
         g_combos = g_comboFails = 0;
-        for (auto &c : g_classes) c.clear();
         g_skip = in["skip"].toInt(0);
         g_comboRoundsMax = in["comboRounds"].toInt(60);
-#include "fields_gen.h"
-#include "fields_hand.h"
-        if (g_skip == 0) {
-            for (auto &c : g_classes) {
-                printf("FIELD %d combinations -\n", g_fields + 1);
-                fflush(stdout);
-                c.run();
-            }
-        }
+        RUN_ALL_PARTS
         emitJson(QJsonObject { { "n", in["n"] }, { "summary", true }, { "combinations", g_combos }, { "combination_failures", g_comboFails }, { "fields", g_fields }, { "live_states", g_live }, { "values", g_values }, { "failures", g_fail } });
     }
     return 0;
